@@ -1,4 +1,6 @@
 """C05 — the emulated Hamiltonian equals the documented formula."""
+import numpy as np
+
 from vmon import gen, prog
 from vmon.hammon import check_hamiltonian
 from vmon.snap import state_key
@@ -16,7 +18,8 @@ ASSUMPTIONS = ["when two channels of one basis drive the same atom the statement
                "noiseless emulator; cases tainted by a C09 partial effect are set aside"]
 TIERS = {"quick": dict(cases=480, shards=8, case_timeout=240, shard_timeout=1200),
          "thorough": dict(cases=4000, shards=16, case_timeout=240, shard_timeout=3400)}
-FLOORS = {"quick": {"sequences_compared": 250, "hamiltonians_compared": 30000, "basis_checks": 250, "open_global_eom_blocks_padded": 5, "xy_mask_scripts_compared": 30},
+FLOORS = {"quick": {"sequences_compared": 250, "hamiltonians_compared": 30000, "basis_checks": 250, "open_global_eom_blocks_padded": 5, "xy_mask_scripts_compared": 30,
+                    "idle_sequences_compared": 15},
           "thorough": {"sequences_compared": 2000}}
 WEIGHTS = {"sample": 0, "str": 0, "to_abstract_repr": 0, "build_copy": 0, "queries": 0, "get_duration": 0,
            "estimate_added_delay": 0, "is_in_eom_mode": 0, "current_phase_ref": 0, "measure": 0.05, "add": 12,
@@ -59,9 +62,43 @@ def xy_mask_case(ctx, idx, rng):
         ctx.mark_nontrivial(("c05xy", idx))
 
 
+def idle_case(ctx, idx, rng):
+    """Directed: a sequence that drives nothing (declared channel, delays only); an emulator of it is taken through a
+    leakage configuration and back; the emulators built afterwards must be the plain two-level ones again."""
+    import warnings
+
+    import qutip
+    from pulser_simulation import QutipEmulator, SimConfig
+
+    dev = {"kind": "builtin", "name": "MockDevice"}
+    reg = gen.gen_register(rng, dev, nmin=1, nmax=3, kind="reg")
+    r = prog.Runner(ctx, dev, reg, [])
+    cid = gen.pick(rng, ["mw_global", "rydberg_global", "raman_global"])
+    for op in ({"op": "declare_channel", "name": "idle", "ch_id": cid}, {"op": "delay", "duration": gen.pick(rng, [16, 52, 200]), "ch": "idle"}):
+        if r.step(op).exc is not None:
+            return
+    with warnings.catch_warnings():
+        warnings.simplefilter("ignore")
+        emu = QutipEmulator.from_sequence(r.seq)
+        dim = len(emu.basis)
+        try:
+            emu.set_config(SimConfig(noise=("leakage", "eff_noise"), eff_noise_rates=[0.1],
+                                     eff_noise_opers=[qutip.Qobj(np.diag([0.0] * dim + [1.0]))]))
+            emu.get_hamiltonian(0)
+            (emu.reset_config if rng.random() < 0.5 else (lambda: emu.set_config(SimConfig())))()
+        except (NotImplementedError, ValueError, TypeError):
+            ctx.count("idle_case_leakage_refused")
+    ctx.count("idle_sequences_after_leakage_config")
+    r.prog["emulator_config_history_of_an_earlier_emulator"] = ["leakage+eff_noise", "default"]
+    if check_hamiltonian(ctx, r.seq, case=r.prog):
+        ctx.count("idle_sequences_compared")
+
+
 def run_case(ctx, idx, rng, tier):
     if idx % 8 == 3:
         return xy_mask_case(ctx, idx, rng)
+    if idx % 16 == 7:
+        return idle_case(ctx, idx, rng)
     xy = rng.random() < 0.25
     dev = gen.gen_device(rng, xy=xy, p_builtin=0.2, p_physical=0.1, max_seq=0.0, want_eom=0.45)
     if dev["kind"] == "builtin" and dev["name"] == "AnalogDevice":
